@@ -74,6 +74,10 @@ CLAIMED = {
    text="TLC explores a name-growing machine over a representative alphabet (all strings up to length 2, thorough 3; the Rust keyword list in three casings; all pairs up to the pair bound plus a pool of case/separator variants); each name (pair) is used as property name, enumerated value and definition key in a document ingested by the real typify, rendered, parsed with syn, compiled and executed on an instance keyed by the original names; TLC validates the recorded events: rejected at add time, or valid distinct identifiers (parse + compile + no duplicate in the inventory), wire names equal to the original names, and an unchanged round trip",
    note="bounded: alphabet of 15 representative characters, length <= 2/3; trusted: TLC, syn, rustc, serde, vdrive",
    ref="DESIGN.md 6 C08"),
+ "C15": dict(
+   text="TLC explores the option-vector machine of MC_C15 (one action per front-end option, plus invalid invocations) and judges the implementation model of the crate-specifier parsers (Frontends.tla) in every state; every vector is run through the real cargo-typify binary built from /repo (all output modes for the base vector) and through import_types! expanded by rustc (-Zunpretty=expanded) next to the builder output expanded the same way; TLC validates the recorded events against ContractCli (exit status, files before/after, stdout, default .rs path, `-` to stdout, nothing written on failure) and token equality of the items with the builder's",
+   note="bounded: option vectors within 1 (thorough 2) option steps over one schema exercising every option; trusted: TLC, syn, rustc -Zunpretty=expanded, rustfmt, vdrive",
+   ref="DESIGN.md 6 C15"),
 }
 NA_REASON = {}
 DEFAULT_NA = "check under construction in this session (DESIGN.md 11); not yet claimed"
